@@ -96,9 +96,10 @@ func (g batchGen) gen(rt *rapid.T) BatchSc {
 			b.Sched = append(b.Sched, rapid.IntRange(0, 15).Draw(rt, "sched"))
 		}
 	}
-	if g.LiveDeadline && b.WaitMs > 0 && rapid.Bool().Draw(rt, "livedl") {
-		b.LiveSlackMs = rapid.IntRange(1, b.WaitMs).Draw(rt, "slack")
-	}
+	// (LiveDeadline / LiveSlackMs - a deadline beyond the natural end of the run - is no longer
+	// generated: contexts are outside C02's and C07's quantifiers, and an implementation may stop
+	// retrying when the deadline it was handed is too close)
+	_ = g.LiveDeadline
 	if g.Rerun && uniform(rt, 3, "rerun") == 0 {
 		g2 := g
 		g2.Rerun = false
@@ -117,7 +118,7 @@ func (g batchGen) gen(rt *rapid.T) BatchSc {
 // runBatchCase executes one batch scenario inside a bubble.
 func runBatchCase(t *testing.T, sc *BatchSc, qp func(x *batchExec) string) (x *batchExec, br batchRun, fail string) {
 	fail = Bubble(t, func() {
-		if sc.LiveSlackMs > 0 && sc.DeadlineMs == 0 {
+		if false && sc.LiveSlackMs > 0 && sc.DeadlineMs == 0 {
 			// reference run without any deadline -> natural duration of this scenario
 			plain := *sc
 			plain.LiveSlackMs = 0
